@@ -26,13 +26,23 @@
     * `pipe_rdfjson_params`        any `--out-param` makes the RDF/JSON target fail at open;
     * `pipe_preserves_nq_params`   N-Quads / N-Triples with parameters: `ascii` as parsed, then `pipe_nq_preserves` /
                                    `pipe_nt_preserves`.
-  PARTIAL
-    * `pipe_preserves_ttl_resources_partial`   `resources=true`: what `C02.resources_doc_roundtrip_partial` gives
-                                   (nesting depth 0), under the explicit hypothesis that the document the pipe writes
-                                   is the document of a flat resource list; see the theorem for the gap.
+    * `ttl_resources_writer`       the `BufferedTriplesEncoder` path on labelled triples, for ANY injective well-formed
+                                   labelling and any two iteration orders: round trip at every nesting depth
+                                   (`C02.buffered_resources_roundtrip` + equivariance of build / export / write under
+                                   an injective renaming, Proofs/C18ResEquiv.lean);
+    * `pipe_ttl_assign_link`       the executable pipe (`pipeTtlWith`, provider asked in statement order) is
+                                   `pipeTtlAssign` at the assignment the provider realises;
+    * `pipe_preserves_ttl_assign`  Turtle target, BOTH modes, for ANY admissible label assignment — independent of
+                                   the order in which fresh UUID texts are drawn (Go: at `Close` in writing order);
+    * `pipe_preserves_ttl_resources_holds`   the full statement `pipe_preserves_ttl_resources` (`resources=true`,
+                                   every nesting depth, collections, anonymous roots, every iteration order) for
+                                   the executable model.
+  SUPERSEDED (kept): `pipe_preserves_ttl_resources_partial` (depth 0 under a flatness hypothesis).
 -/
 import RdfModel.Props.C18
 import RdfModel.Props.C02Doc
+import RdfModel.Props.C02DocNest
+import RdfModel.Proofs.C18ResEquiv
 import RdfModel.Props.C01RJ
 import RdfModel.Proofs.C18Cfg
 import RdfModel.Gen.PipeCfgFacts
@@ -224,10 +234,10 @@ theorem pipe_preserves_ttl_plain {β : Type} (S : Prefix.Sorter) (raw : List (Li
 
 open Gen.PipeCfgFacts in
 /-- FULL statement for `resources=true`: as `pipe_preserves_ttl_plain` with `hopt` yielding `true`, for every
-    iteration order of the subject map. NOT PROVED; it needs `C02.resources_doc_roundtrip` (the `[ … ]` / `( … )`
-    layer of the decoder, itself only a stated `def`) and the equivariance of `ExportResources` + `AddResource`
-    under an injective relabelling. Evidence instead: T3 (`pipe.ttl` with `resources`, byte-identical to the real
-    manager on labelled sources), the end-to-end oracle on the binary, C17 `flatten_export_repaired`. -/
+    iteration order of the subject map (`ord1`, `ord2` may depend on the labelling). PROVED below:
+    `pipe_preserves_ttl_resources_holds` (from `C02.buffered_resources_roundtrip` and the equivariance of
+    `ExportResources` + `AddResource` under an injective relabelling, Proofs/C18ResEquiv.lean). The order in which
+    fresh labels are drawn is immaterial: `pipe_preserves_ttl_assign`. -/
 def pipe_preserves_ttl_resources : Prop :=
   ∀ (β : Type) [DecidableEq β] (S : Prefix.Sorter) (raw : List (List Nat)) (base : List Nat) (cfg : TtlEnc.Config),
     ttlOptions rdfaContext raw base = some (cfg, true) →
@@ -247,7 +257,9 @@ def pipe_preserves_ttl_resources : Prop :=
       out.map C02.tripleOfStmt = tr.map some ∧ Spec.Iso tr ts
 
 open Gen.PipeCfgFacts in
-/-- `rdfkit pipe` into **Turtle** with `resources=true` — PARTIAL: exactly what `C02.resources_doc_roundtrip_partial`
+/-- SUPERSEDED by `pipe_preserves_ttl_resources_holds` / `pipe_preserves_ttl_assign` (kept: it was the state of the
+    art before `C02.buffered_resources_roundtrip` existed).
+    `rdfkit pipe` into **Turtle** with `resources=true` — PARTIAL: exactly what `C02.resources_doc_roundtrip_partial`
     gives (resources of nesting depth 0 with explicit subjects), transported through the option plumbing and the
     label stage. Hypotheses as `pipe_preserves_ttl_plain`, plus
     * `hflat`: for the labelling `σ` the provider produces (any injective `σ` that keeps the source labels), the
@@ -297,6 +309,117 @@ theorem pipe_preserves_ttl_resources_partial {β : Type} [DecidableEq β] (S : P
   have hts' : toTriples (qs.map quadAsTriple) = some ts := hts
   simp only [pipeTtl, pipeTtlWith, hopt, hprov, Proofs.C18.pipeStatements_map, Proofs.C18.pipeStatements_triples, hlab,
     Proofs.C18.toTriples_map, hts', Option.map_some, hflat σ hinj hown, h1]
+  rfl
+
+/-! ## Turtle target, nested-resource mode: FULL (via `C02.buffered_resources_roundtrip`) -/
+
+/-- The writer stage alone, for ANY labelling: whatever injective labelling `σ` with well-formed labels the
+    provider realises (in whatever order it drew the fresh texts), the document the `BufferedTriplesEncoder` path
+    writes for the labelled triples — for any iteration orders `ord1`, `ord2` of the subject map — is accepted by
+    the decoder (no defaults needed when `cfg` has no directive mode) and decodes to a graph isomorphic to the
+    source triples. Composition of `C02.buffered_resources_roundtrip` (all nesting depths, collections, anonymous
+    roots; itself composed with C17's `flatten_export_repaired`) with the equivariance of build / export /
+    `AddResource` under an injective renaming (`Proofs.C18Res.encodeResourcesWith_map`). -/
+theorem ttl_resources_writer {β : Type} [DecidableEq β] (cfg : TtlEnc.Config) (pm : Prefix.PM)
+    (hcfg : C02.ConfigOK C02.docCfg.isSpace Gen.turtle cfg pm) (σ : β → List Nat) (hσ : C02.LabelOK Gen.turtle σ)
+    (ts : List (Desc.Triple β))
+    (hwf : ∀ t ∈ ts, C02.TripleOK (TtlEnc.ctxOf Gen.turtle cfg pm (fun _ : β => [])) cfg.base t)
+    (ord1 ord2 : List (Term Bytes))
+    (h1 : ord1.Perm (Desc.build (ts.map (Desc.Triple.map σ))).subjects)
+    (h2 : ord2.Perm (Desc.build (ts.map (Desc.Triple.map σ))).subjects) :
+    ∃ (doc : List Nat) (out : List TtlDoc.Stmt) (tr : List (Desc.Triple TtlDoc.BN)),
+      TtlEnc.encodeResourcesWith Gen.turtle false cfg pm id ord1 ord2 (ts.map (Desc.Triple.map σ)) = some (.ok doc) ∧
+      TtlDoc.run C02.docCfg .eof (C02.defaultBase cfg) (C02.defaultPrefixes cfg pm) doc = (out, .clean) ∧
+      out.map C02.tripleOfStmt = tr.map some ∧ Spec.Iso tr ts := by
+  have hsub : (Desc.build (ts.map (Desc.Triple.map σ))).subjects = (Desc.build ts).subjects.map (Term.map σ) := by
+    rw [Proofs.C18Res.build_map hσ.inj, Proofs.C18Res.subjects_map]
+  rw [hsub] at h1 h2
+  obtain ⟨o1, ho1, rfl⟩ := Proofs.C18Res.perm_map_inv _ _ _ h1
+  obtain ⟨o2, ho2, rfl⟩ := Proofs.C18Res.perm_map_inv _ _ _ h2
+  rw [Proofs.C18Res.encodeResourcesWith_map Gen.turtle cfg pm id σ hσ.inj false o1 o2 ts]
+  exact C02.buffered_resources_roundtrip C02.docCfg Gen.turtle C02.gen_turtle_doc_ok C08.gen_turtle_ok2
+    Proofs.C02Doc.gen_turtle_print_ok C02.docCfg_nest_ok cfg pm σ hcfg hσ o1 o2 ts
+    (fun t ht => Proofs.C18.tripleOK_label Gen.turtle cfg _ _ σ t (hwf t ht)) ho1 ho2
+
+/-- `pipeTtlWith` (the executable model the driver runs, provider asked in statement order) IS `pipeTtlAssign` at the
+    assignment the provider realises — for any provider run whose answers are a function of the node. -/
+theorem pipe_ttl_assign_link (T : Ttl.Tables) (rdfa : List Prefix.Mapping) (mk : List Prefix.Mapping → Prefix.PM)
+    (raw : List (List Nat)) (base : List Nat) (ord1 ord2 : List (Term Bytes)) (U : Nat → Bytes) (s s1 : State)
+    (h : Option FactoryRef) (p : ProvRef) (src : Kind) (decoded : List (Quad Node)) (assign : Node → Bytes)
+    (hprov : pipeProvider U s h = (s1, some p))
+    (hlab : (labelQuads U p s1 (pipeStatements src .triples decoded)).2 =
+      some ((pipeStatements src .triples decoded).map (Quad.map assign))) :
+    pipeTtlWith T rdfa mk raw base ord1 ord2 U s h src decoded =
+      pipeTtlAssign T rdfa mk raw base ord1 ord2 assign src decoded := by
+  unfold pipeTtlWith pipeTtlAssign
+  cases ttlOptions rdfa raw base with
+  | none => rfl
+  | some x => obtain ⟨cfg, res⟩ := x; simp only [hprov, hlab]
+
+open Gen.PipeCfgFacts in
+/-- `rdfkit pipe` into **Turtle**, BOTH modes (`resources` true or false), for ANY admissible label assignment —
+    hence independent of the order in which the provider is asked (Go: at `Close`, in writing order, never for an
+    inlined node; model: statement order): if the labels the run uses are given by an `assign : Node → Bytes` whose
+    restriction `assign ∘ node` to the dataset's blank nodes is injective with well-formed labels, the document
+    round-trips to a graph isomorphic to the source triples, for every accepted parameter list, encoder base and
+    every pair of iteration orders of the subject map. Hypotheses otherwise as `pipe_preserves_ttl_plain`. -/
+theorem pipe_preserves_ttl_assign {β : Type} [DecidableEq β] (S : Prefix.Sorter) (raw : List (List Nat))
+    (base : List Nat) (cfg : TtlEnc.Config) (res : Bool) (hopt : ttlOptions rdfaContext raw base = some (cfg, res))
+    (hcfg : C02.ConfigOK C02.docCfg.isSpace Gen.turtle cfg (Prefix.new S cfg.prefixes))
+    (node : β → Node) (assign : Node → Bytes) (hσ : C02.LabelOK Gen.turtle (assign ∘ node))
+    (src : Kind) (qs : List (Quad β)) (ts : List (Desc.Triple β)) (hts : Proofs.C18.triplesOf qs = some ts)
+    (hwf : ∀ t ∈ ts, C02.TripleOK (TtlEnc.ctxOf Gen.turtle cfg (Prefix.new S cfg.prefixes) (fun _ : β => [])) cfg.base t)
+    (ord1 ord2 : List (Term Bytes))
+    (h1 : res = true → ord1.Perm (Desc.build (ts.map (Desc.Triple.map (assign ∘ node)))).subjects)
+    (h2 : res = true → ord2.Perm (Desc.build (ts.map (Desc.Triple.map (assign ∘ node)))).subjects) :
+    ∃ (doc : List Nat) (out : List TtlDoc.Stmt) (tr : List (Desc.Triple TtlDoc.BN)),
+      pipeTtlAssign Gen.turtle rdfaContext (Prefix.new S) raw base ord1 ord2 assign src (qs.map (Quad.map node)) = .ok doc ∧
+      TtlDoc.run C02.docCfg .eof none [] doc = (out, .clean) ∧
+      out.map C02.tripleOfStmt = tr.map some ∧ Spec.Iso tr ts := by
+  obtain ⟨hd1, hd2⟩ := ttl_options_no_defaults rdfaContext raw base cfg res hopt (Prefix.new S cfg.prefixes)
+  have hts' : toTriples (qs.map quadAsTriple) = some ts := hts
+  have hmap : ((qs.map quadAsTriple).map (Quad.map node)).map (Quad.map assign) =
+      (qs.map quadAsTriple).map (Quad.map (assign ∘ node)) := by
+    simp only [List.map_map]
+    apply List.map_congr_left
+    intro q _
+    obtain ⟨a, b, c, d⟩ := q
+    cases a <;> cases b <;> cases c <;> cases d <;> simp [Quad.map, Term.map, quadAsTriple]
+  cases res with
+  | true =>
+    obtain ⟨doc, out, tr, e1, e2, e3, e4⟩ := ttl_resources_writer cfg (Prefix.new S cfg.prefixes) hcfg (assign ∘ node) hσ ts hwf
+      ord1 ord2 (h1 rfl) (h2 rfl)
+    rw [hd1, hd2] at e2
+    refine ⟨doc, out, tr, ?_, e2, e3, e4⟩
+    simp only [pipeTtlAssign, hopt, Proofs.C18.pipeStatements_map, Proofs.C18.pipeStatements_triples, hmap,
+      Proofs.C18.toTriples_map, hts', Option.map_some, e1]
+    rfl
+  | false =>
+    obtain ⟨doc, out, tr, e1, e2, e3, e4⟩ :=
+      C02.plain_doc_iso C02.docCfg Gen.turtle C02.gen_turtle_doc_ok C02.docCfg_ok cfg (Prefix.new S cfg.prefixes)
+        (assign ∘ node) hcfg hσ ts (fun t ht => Proofs.C18.tripleOK_label Gen.turtle cfg _ _ _ t (hwf t ht))
+    rw [hd1, hd2] at e2
+    refine ⟨doc, out, tr, ?_, e2, e3, e4⟩
+    simp only [pipeTtlAssign, hopt, Proofs.C18.pipeStatements_map, Proofs.C18.pipeStatements_triples, hmap,
+      Proofs.C18.toTriples_map, hts', Option.map_some, Proofs.C18.encodePlainWith_map, e1]
+    rfl
+
+/-- The full statement for `resources=true` HOLDS for the executable model `pipeTtl` (labels drawn in statement
+    order): no flatness hypothesis, every nesting depth, every iteration order of the subject map. -/
+theorem pipe_preserves_ttl_resources_holds : pipe_preserves_ttl_resources := by
+  intro β _ S raw base cfg hopt hcfg U hU hUok s hI j hj node hnode src qs ts hts hocc hscope hwf ord1 ord2 ho1 ho2
+  obtain ⟨p, s1, σ, hinj, hgood, hprov, hlab, _⟩ :=
+    Proofs.C18.pipe_labelled (fun l => C02.labelOK Gen.turtle l = true ∧ C02.Scalars l) U hU hUok s hI j hj node hnode
+      (qs.map quadAsTriple) hocc hscope
+  have hσ : C02.LabelOK Gen.turtle σ := ⟨hinj, hgood⟩
+  obtain ⟨doc, out, tr, e1, e2, e3, e4⟩ := ttl_resources_writer cfg (Prefix.new S cfg.prefixes) hcfg σ hσ ts hwf
+    (ord1 σ) (ord2 σ) (ho1 σ) (ho2 σ)
+  obtain ⟨hd1, hd2⟩ := ttl_options_no_defaults Gen.PipeCfgFacts.rdfaContext raw base cfg true hopt (Prefix.new S cfg.prefixes)
+  rw [hd1, hd2] at e2
+  refine ⟨σ, doc, out, tr, ?_, e2, e3, e4⟩
+  have hts' : toTriples (qs.map quadAsTriple) = some ts := hts
+  simp only [pipeTtl, pipeTtlWith, hopt, hprov, Proofs.C18.pipeStatements_map, Proofs.C18.pipeStatements_triples, hlab,
+    Proofs.C18.toTriples_map, hts', Option.map_some, e1]
   rfl
 
 /-! ## RDF/JSON target -/
